@@ -7,7 +7,8 @@ HERE = os.path.dirname(os.path.dirname(os.path.abspath(__file__)))
 
 E1_NOTE = ("Trusted base: the reference unifier in harness/src/refunify.rs (Robinson, triangular substitution, "
            "wildcard rule for `$_`), the term decoder in harness/src/term.rs, and the small-scope hypothesis "
-           "(3 named variables, term depth <= 2, lists <= 3 elements). Pairs needing an occurs check are counted, not judged.")
+           "(3 named variables, term depth <= 2, lists <= 3 elements) for the exhaustive spaces; beyond it only the scale spaces (DESIGN §2, 'Scale families': "
+           "chains of k variables, variable ids up to 257, terms nested / lists of n elements for every boundary size n up to 300) are covered. Pairs needing an occurs check are counted, not judged.")
 
 CHECKS = {
     # id: (engine, category, technique, text, note, design_ref)
@@ -34,7 +35,8 @@ CHECKS = {
 
 E2_NOTE = ("Trusted base: the reference interpreter harness/src/refsolve.rs (naive CPS depth-first search, no resume state) with the "
            "reference built-ins, first checked against the repository's own documented answers; the program generators of harness/src/gen.rs; "
-           "the small-scope hypothesis. Programs on which the statements are silent (step budget, occurs check, arithmetic on unbound) are counted and skipped.")
+           "the small-scope hypothesis for the exhaustive families; beyond it only the scale families of harness/src/gen_scale.rs (one size parameter at a time - clauses, goals, variables, list length, nesting, retries - "
+           "at every boundary size up to 129, thorough 300) are covered. Programs on which the statements are silent (step budget, occurs check, arithmetic on unbound) are counted and skipped.")
 
 CHECKS.update({
     "C01": ("e2", "model_checking", "bounded-exhaustive programs x queries x next_solution histories, reference interpreter in lock-step",
@@ -87,7 +89,8 @@ E4_NOTE = ("Trusted base: the canonical printer / grammar in harness/src/term.rs
 CHECKS.update({
     "C18": ("e4", "exploration", "bounded-exhaustive strings and corpus edits through all parser entry points under a crash/hang monitor (no reference model)",
             "Every string of length <= 5 (quick) / 6 (thorough) over a 26-symbol syntax alphabet and every single edit (thorough: double edits) of a 24-text valid corpus is given to all 10 parser "
-            "entry points; a panic (identified by site), abort, stack overflow or hang is a violation. Exploration level: the oracle is only 'returns a value or an error message'.", E4_NOTE, "§2 E4, §3 C18"),
+            "entry points; plus scale inputs (nesting depth / item count / token length at every boundary size up to 129, thorough 1000, with truncations) and every single edit of four long texts; "
+            "a panic (identified by site), abort, stack overflow or hang (10 s of the worker's own CPU time) is a violation. Exploration level: the oracle is only 'returns a value or an error message'.", E4_NOTE, "§2 E4, §3 C18"),
     "C19": ("e4", "model_checking", "bounded-exhaustive derivations of the canonical grammar: parse / Display / re-parse vs constructor-built values",
             "All terms of depth <= 2 (thorough 3), all leaf goals over depth-1 terms (calls, zero-arity goals in both spellings, =, named and infix comparisons and arithmetic, not, built-ins) and "
             "rules with and/or bodies of <= 3 goals: parse(canonical text) must equal the value built through the constructors, Display must give the canonical text, parse(Display) the same value.", E4_NOTE, "§2 E4, §3 C19"),
